@@ -45,7 +45,10 @@ func numericTypeConverterFunc[T int64 | uint64 | float64](value any) (any, error
 			return nil, fmt.Errorf("expected an int value, but found numeric value '%s'", bigFloat.String())
 		}
 
-		numericValue, _ := bigFloat.Int64()
+		numericValue, accuracy := bigFloat.Int64()
+		if accuracy != big.Exact {
+			return nil, fmt.Errorf("expected an int value, but found out of range numeric value '%s'", bigFloat.String())
+		}
 		return numericValue, nil
 
 	case uint64:
@@ -53,11 +56,14 @@ func numericTypeConverterFunc[T int64 | uint64 | float64](value any) (any, error
 			return nil, fmt.Errorf("expected a uint value, but found numeric value '%s'", bigFloat.String())
 		}
 
-		numericValue, _ := bigFloat.Int64()
-		if numericValue < 0 {
+		if bigFloat.Sign() < 0 {
 			return nil, fmt.Errorf("expected a uint value, but found int64 value '%s'", bigFloat.String())
 		}
-		return uint64(numericValue), nil
+		numericValue, accuracy := bigFloat.Uint64()
+		if accuracy != big.Exact {
+			return nil, fmt.Errorf("expected a uint value, but found out of range numeric value '%s'", bigFloat.String())
+		}
+		return numericValue, nil
 
 	case float64:
 		numericValue, a := bigFloat.Float64()
